@@ -315,6 +315,9 @@ def copy_case(ctx, seed):
             d['handler'] = 'wrap'      # an envelope handler whose prepared form still references the live result
     prog['params'] = {'copy': True}
     variant = (seed // 3) % 4
+    if (seed // 12) % 3 == 1:
+        prog['base_params'] = {'copy': False, 'rate': 1.0}     # the class extends a configured base class that does NOT copy
+        ctx.count('copy_cases_with_a_configured_base_class')
     if variant == 2:
         prog['params']['rate'] = 0           # never sampled by rate - kept only because the operation enforces sampling
     elif variant == 3:
